@@ -347,6 +347,10 @@ func genSendMany(g *hx.Gen) {
 }
 
 func gen(g *hx.Gen) {
+	for _, fail := range []int{0, 1} { // the real SaveBlock, without / with a failing save processor
+		g.Emit("reset")
+		g.Emit("svflow %d", fail)
+	}
 	for _, keep := range []int{0, 1} { // a real node reorganises; the transaction is / is not on the new branch
 		g.Emit("reset")
 		g.Emit("rgflow %d", keep)
